@@ -13,11 +13,12 @@
     same_object_while_unchanged callback_once_per_parse callback_once_per_load
     failed_load_is_noop lock_balanced loader_cache_bounded
     model_alphabet_is_overridden_interface default_loader_bounded
-    recency_is_last_use_order evicted_is_least_recently_used
+    recency_is_last_use_order evicted_is_least_recently_used wf_check_decides_wf
 -/
 import Genshi.Lemmas.Lru
 import Genshi.Lemmas.LruAbs
 import Genshi.Lemmas.LruTime
+import Genshi.Lemmas.LruCheck
 import Genshi.Lemmas.Loader
 import Genshi.Gen.Loader
 namespace Genshi.Props.C15
@@ -149,6 +150,14 @@ theorem wf_means (c : CLru K V) (h : Wf c) : ∃ ids : List Id,
     (∀ k i, c.dict k = some i → i ∈ ids ∧ (c.heap i).key = k) := by
   obtain ⟨ids, hr⟩ := h
   exact ⟨ids, hr.meaning⟩
+
+/-- The executable check (what `gdrv` reports with every dump and what the oracle's
+    `structure_ok` tests on the real object: forward walk = reverse of backward walk, no node
+    twice, `_dict` = the walked nodes, `len` = their number) is equivalent to `Wf`, on any key
+    universe that covers the dictionary. -/
+theorem wf_check_decides_wf (c : CLru K V) (keys : List K)
+    (hcov : ∀ k i, c.dict k = some i → k ∈ keys) : wfCheck c keys = true ↔ Wf c :=
+  wfCheck_iff hcov
 
 /-- Known finding C15-inherited-dict: `get/keys/pop/__delitem__/…` are not overridden and act
     on the base `dict`, which `LRUCache` never fills; `cache.get(k)` misses a cached key. -/
